@@ -63,13 +63,32 @@ func fsPrim(f *types.Func, wide bool) bool {
 
 func (c *Ctx) ruleC14FS() {
 	r := c.R
-	r.Rule("C14-WHO-MAY-TOUCH-FS", "path-taking file primitives (os.*, ioutil.*, filepath.Walk/Glob/EvalSymlinks/Abs, schema-core reader.*, os/exec, net) are called in library packages only from the reference sites getIncludedFilePath->os.Stat, readFile->os.ReadFile, readPanicFree->reader.Read; thorough tier: also no other dependency function reachable from the library reaches such a primitive", 3)
-	allowed := map[string]string{
-		"core.(*JApiCore).getIncludedFilePath -> os.Stat": "stat of the validated, joined include path",
-		"core.readFile -> os.ReadFile":                    "reads the path returned by getIncludedFilePath",
-		"kit.readPanicFree -> reader.Read":                "reads the root file given by the caller",
+	r.Rule("C14-WHO-MAY-TOUCH-FS", "path-taking file primitives (os.*, ioutil.*, filepath.Walk/Glob/EvalSymlinks/Abs, schema-core reader.*, os/exec, net) are called in library packages only at reference sites, recognised by their role: the Stat of the include resolver, a read of the path the resolver returned (handed on through parameters of helpers at most), and in package kit the read of the root file named by the caller; thorough tier: also no other dependency function reachable from the library reaches such a primitive", 3)
+	resolver := c.includeResolver()
+	// a site is a reference site by its role, not by the name of the function it sits in:
+	//   the Stat of the include resolver; a primitive that is handed a governed path (the resolver's result, C14-VALIDATE-FIRST);
+	//   in package kit, a primitive that is handed a parameter of an entry point (the root file chosen by the caller)
+	role := func(f *Fn, call *ast.CallExpr, cal *types.Func) string {
+		if resolver != nil && f.Obj == resolver.Obj && cal.Pkg().Path() == "os" && (cal.Name() == "Stat" || cal.Name() == "Lstat") {
+			return "stat of the validated, joined include path"
+		}
+		if len(call.Args) == 0 {
+			return ""
+		}
+		if f.Pkg.Types.Name() == "kit" {
+			if c.rootPathParam(f, call.Args[0], map[types.Object]bool{}) {
+				return "reads the root file given by the caller"
+			}
+			return ""
+		}
+		if resolver != nil {
+			if why := c.governedPath(f, call.Args[0], resolver, map[types.Object]bool{}); why != "" {
+				return "reads a governed path: " + why
+			}
+		}
+		return ""
 	}
-	seen := map[string]bool{}
+	nSites := 0
 	for _, f := range c.libFns() {
 		ast.Inspect(f.Decl.Body, func(n ast.Node) bool {
 			call, ok := n.(*ast.CallExpr)
@@ -82,8 +101,8 @@ func (c *Ctx) ruleC14FS() {
 			}
 			pkgName := cal.Pkg().Name()
 			key := fmt.Sprintf("%s -> %s.%s", f.Name(), pkgName, cal.Name())
-			if why, ok := allowed[key]; ok {
-				seen[key] = true
+			if why := role(f, call, cal); why != "" {
+				nSites++
 				r.Ok("C14-WHO-MAY-TOUCH-FS", key, "reference site: "+why, c.pos(call.Pos()))
 			} else {
 				r.Bad("C14-WHO-MAY-TOUCH-FS", key, "a file-system (or process/network) primitive is called outside the three reference sites: the builder can touch files that the include rules do not govern", c.pos(call.Pos()))
@@ -91,24 +110,25 @@ func (c *Ctx) ruleC14FS() {
 			return true
 		})
 		// function values (os.ReadFile passed around)
-		ast.Inspect(f.Decl.Body, func(n ast.Node) bool {
+		inspectWithStack(f.Decl.Body, func(n ast.Node, stack []ast.Node) bool {
 			sel, ok := n.(*ast.SelectorExpr)
 			if !ok {
 				return true
 			}
 			if fn, ok := f.Pkg.TypesInfo.Uses[sel.Sel].(*types.Func); ok && fsPrimitive(fn) {
-				key := fmt.Sprintf("%s -> %s.%s", f.Name(), fn.Pkg().Name(), fn.Name())
-				if _, ok := allowed[key]; !ok {
-					r.Bad("C14-WHO-MAY-TOUCH-FS", key+" (value)", "a file-system primitive is referenced outside the reference sites", c.pos(sel.Pos()))
+				if len(stack) > 0 {
+					if call, isCall := stack[len(stack)-1].(*ast.CallExpr); isCall && ast.Unparen(call.Fun) == ast.Expr(sel) {
+						return true // a direct call, judged above
+					}
 				}
+				key := fmt.Sprintf("%s -> %s.%s", f.Name(), fn.Pkg().Name(), fn.Name())
+				r.Bad("C14-WHO-MAY-TOUCH-FS", key+" (value)", "a file-system primitive is used as a value: who calls it with which path is not visible", c.pos(sel.Pos()))
 			}
 			return true
 		})
 	}
-	for k := range allowed {
-		if !seen[k] {
-			r.Observe("C14-WHO-MAY-TOUCH-FS", k, "reference site no longer present", "")
-		}
+	if nSites < 3 {
+		r.Observe("C14-WHO-MAY-TOUCH-FS", "reference sites", fmt.Sprintf("%d reference sites found (3 on the pinned tree)", nSites), "")
 	}
 	if c.Deep {
 		c.ruleC14DeepFS()
@@ -176,9 +196,9 @@ func (c *Ctx) ruleC14DeepFS() {
 func (c *Ctx) ruleC14ValidateFirst() {
 	r := c.R
 	r.Rule("C14-VALIDATE-FIRST", "in the function calling os.Stat: the stat'ed value is filepath.Join(filepath.Dir(<current scanner>.File().Name()), p); p passed the name predicate in an `if err := V(p); err != nil { return error }` that dominates the Stat; every successful return hands on the very variable that was stat'ed and is dominated by the Stat call; the reader is given that returned value", 4)
-	f := c.fn("core", "JApiCore.getIncludedFilePath")
+	f := c.includeResolver()
 	if f == nil {
-		r.Undecided("C14-VALIDATE-FIRST", "anchor", "getIncludedFilePath not found", "")
+		r.Bad("C14-VALIDATE-FIRST", "stat", "no library function outside package kit stats a path (or several do): the include path is not checked for existence by one resolver", "")
 		return
 	}
 	pk := f.Pkg
@@ -299,54 +319,148 @@ func (c *Ctx) ruleC14ValidateFirst() {
 	if nOK == 0 {
 		r.Bad("C14-VALIDATE-FIRST", "successful return", "no successful return found", where)
 	}
-	// the reader gets the returned value
-	if pi := c.fn("core", "JApiCore.processInclude"); pi != nil {
-		var pathVar string
-		ast.Inspect(pi.Decl.Body, func(n ast.Node) bool {
-			if as, ok := n.(*ast.AssignStmt); ok && len(as.Rhs) == 1 && len(as.Lhs) == 2 {
-				if call, ok := ast.Unparen(as.Rhs[0]).(*ast.CallExpr); ok && callee(pi.Pkg, call) == f.Obj {
-					pathVar = accessPath(pi.Pkg, as.Lhs[0])
-				}
-			}
-			return true
-		})
-		rf := c.P.LookupFunc("core", "readFile")
-		calls := callsIn(pi.Pkg, pi.Decl.Body, rf)
-		if len(calls) == 1 && pathVar != "" && accessPath(pi.Pkg, calls[0].Args[0]) == pathVar {
-			r.Ok("C14-VALIDATE-FIRST", "reader argument", "readFile receives the value returned by getIncludedFilePath", c.pos(calls[0].Pos()))
-		} else {
-			r.Bad("C14-VALIDATE-FIRST", "reader argument", "readFile is not given the path returned by getIncludedFilePath", c.pos(pi.Decl.Pos()))
+	c.includeValidator = validator
+	// the reader gets the returned value: every read primitive of the library outside package kit is handed a
+	// governed path (see governedPath), and the File object is named by the same path
+	nReads := 0
+	for _, g := range c.libFns() {
+		if g.Pkg.Types.Name() == "kit" {
+			continue
 		}
-		// readFile passes its parameter to os.ReadFile and fs.NewFile unchanged
-		if rff := c.fnOf(rf); rff != nil {
-			param := ""
-			if len(rff.Decl.Type.Params.List) == 1 && len(rff.Decl.Type.Params.List[0].Names) == 1 {
-				param = accessPath(rff.Pkg, rff.Decl.Type.Params.List[0].Names[0])
+		ast.Inspect(g.Decl.Body, func(n ast.Node) bool {
+			call, ok := n.(*ast.CallExpr)
+			if !ok || len(call.Args) == 0 {
+				return true
 			}
-			ok := false
-			ast.Inspect(rff.Decl.Body, func(n ast.Node) bool {
-				if call, isCall := n.(*ast.CallExpr); isCall {
-					if cal := callee(rff.Pkg, call); cal != nil && cal.Name() == "ReadFile" && len(call.Args) == 1 && accessPath(rff.Pkg, call.Args[0]) == param {
-						ok = true
+			cal := callee(g.Pkg, call)
+			if !fsPrimitive(cal) || cal.Pkg().Path() == "os" && (cal.Name() == "Stat" || cal.Name() == "Lstat") && g.Obj == f.Obj {
+				return true
+			}
+			nReads++
+			key := fmt.Sprintf("reader argument | %s -> %s.%s", g.Name(), cal.Pkg().Name(), cal.Name())
+			if why := c.governedPath(g, call.Args[0], f, map[types.Object]bool{}); why != "" {
+				r.Ok("C14-VALIDATE-FIRST", key, why, c.pos(call.Pos()))
+			} else {
+				r.Bad("C14-VALIDATE-FIRST", key, "the path read is not the value returned by the include resolver "+f.Obj.Name()+" (directly or through parameters of helpers)", c.pos(call.Pos()))
+			}
+			// the File built from the content carries the same path
+			readPath := accessPath(g.Pkg, call.Args[0])
+			ast.Inspect(g.Decl.Body, func(m ast.Node) bool {
+				nc, ok := m.(*ast.CallExpr)
+				if !ok || len(nc.Args) != 2 {
+					return true
+				}
+				if nf := callee(g.Pkg, nc); nf != nil && nf.Name() == "NewFile" && nf.Pkg() != nil && strings.HasSuffix(nf.Pkg().Path(), "/fs") {
+					if accessPath(g.Pkg, nc.Args[0]) == readPath && readPath != "" {
+						r.Ok("C14-VALIDATE-FIRST", "file name | "+g.Name(), "fs.NewFile is given the path that was read", c.pos(nc.Pos()))
+					} else {
+						r.Bad("C14-VALIDATE-FIRST", "file name | "+g.Name(), "the File is named by something else than the path that was read: relative includes inside it and error locations refer to another file", c.pos(nc.Pos()))
 					}
 				}
 				return true
 			})
-			if ok {
-				r.Ok("C14-VALIDATE-FIRST", "readFile", "os.ReadFile is given readFile's own parameter", c.pos(rff.Decl.Pos()))
-			} else {
-				r.Bad("C14-VALIDATE-FIRST", "readFile", "os.ReadFile reads something else than the path it was given", c.pos(rff.Decl.Pos()))
+			return true
+		})
+	}
+	if nReads == 0 {
+		r.Bad("C14-VALIDATE-FIRST", "reader argument", "no read of the included file found", where)
+	}
+}
+
+// includeResolver: the one library function outside package kit that stats a path.
+func (c *Ctx) includeResolver() *Fn {
+	var found []*Fn
+	for _, g := range c.libFns() {
+		if g.Pkg.Types.Name() == "kit" {
+			continue
+		}
+		has := false
+		ast.Inspect(g.Decl.Body, func(n ast.Node) bool {
+			if call, ok := n.(*ast.CallExpr); ok {
+				if cal := callee(g.Pkg, call); cal != nil && cal.Pkg() != nil && cal.Pkg().Path() == "os" && (cal.Name() == "Stat" || cal.Name() == "Lstat") {
+					has = true
+				}
 			}
+			return true
+		})
+		if has {
+			found = append(found, g)
 		}
 	}
+	if len(found) == 1 {
+		return found[0]
+	}
+	return nil
+}
+
+// governedPath: the expression is the first result of the include resolver (a local defined from its call), or a
+// parameter of g for which every call site in the library passes a governed path.
+func (c *Ctx) governedPath(g *Fn, e ast.Expr, resolver *Fn, visiting map[types.Object]bool) string {
+	id, ok := ast.Unparen(e).(*ast.Ident)
+	if !ok {
+		return ""
+	}
+	obj := g.Pkg.TypesInfo.Uses[id]
+	if obj == nil || visiting[obj] {
+		return ""
+	}
+	visiting[obj] = true
+	if idx := paramIndexOf(g, id); idx >= 0 {
+		if paramAssigned(g, id) {
+			return ""
+		}
+		sites, closed := c.callersOf(g)
+		if !closed || len(sites) == 0 {
+			return ""
+		}
+		for _, cs := range sites {
+			a := argFor(cs, idx)
+			if a == nil || c.governedPath(cs.g, a, resolver, visiting) == "" {
+				return ""
+			}
+		}
+		return fmt.Sprintf("parameter of the helper %s; each of its %d call sites passes the value returned by %s", g.Obj.Name(), len(sites), resolver.Obj.Name())
+	}
+	// a local: exactly one definition, from the resolver's call
+	nDef, fromResolver := 0, false
+	ast.Inspect(g.Decl.Body, func(n ast.Node) bool {
+		as, ok := n.(*ast.AssignStmt)
+		if !ok {
+			return true
+		}
+		for i, l := range as.Lhs {
+			lid, ok := ast.Unparen(l).(*ast.Ident)
+			if !ok || (g.Pkg.TypesInfo.Defs[lid] != obj && g.Pkg.TypesInfo.Uses[lid] != obj) {
+				continue
+			}
+			nDef++
+			if i == 0 && len(as.Rhs) == 1 {
+				if call, ok := ast.Unparen(as.Rhs[0]).(*ast.CallExpr); ok && callee(g.Pkg, call) == resolver.Obj {
+					fromResolver = true
+				}
+			}
+		}
+		return true
+	})
+	if nDef == 1 && fromResolver {
+		return "the value returned by " + resolver.Obj.Name() + " in this function"
+	}
+	return ""
 }
 
 func (c *Ctx) ruleC14Predicate() {
 	r := c.R
 	r.Rule("C14-PREDICATE", "the name predicate applied before the Stat accepts only strings of the safe language (non-empty, not starting with '/', no '\\', no '/'-segment equal to '.' or '..'); decided on the product automaton of its atoms; s[0] is evaluated only after an emptiness test that rejects", 2)
-	f := c.fn("core", "validateIncludeFileName")
+	// the predicate is the function whose error guards the Stat in the include resolver (found by C14-VALIDATE-FIRST)
+	var f *Fn
+	if c.includeValidator != nil {
+		f = c.fnOf(c.includeValidator)
+	}
 	if f == nil {
-		r.Undecided("C14-PREDICATE", "anchor", "validateIncludeFileName not found", "")
+		f = c.fn("core", "validateIncludeFileName")
+	}
+	if f == nil {
+		r.Undecided("C14-PREDICATE", "anchor", "no name predicate guards the Stat of the include resolver", "")
 		return
 	}
 	p := translatePredicate(f.Pkg, f.Decl)
@@ -477,4 +591,33 @@ func (c *Ctx) ruleC14CycleGuard() {
 			})
 		}
 	}
+}
+
+// rootPathParam: in package kit, the expression is a parameter of an exported entry point, or a parameter of a helper
+// every call site of which passes one.
+func (c *Ctx) rootPathParam(f *Fn, e ast.Expr, visiting map[types.Object]bool) bool {
+	id, ok := ast.Unparen(e).(*ast.Ident)
+	if !ok {
+		return false
+	}
+	obj := f.Pkg.TypesInfo.Uses[id]
+	idx := paramIndexOf(f, id)
+	if obj == nil || idx < 0 || visiting[obj] || paramAssigned(f, id) {
+		return false
+	}
+	visiting[obj] = true
+	if f.Obj.Exported() {
+		return true
+	}
+	sites, closed := c.callersOf(f)
+	if !closed || len(sites) == 0 {
+		return false
+	}
+	for _, cs := range sites {
+		a := argFor(cs, idx)
+		if a == nil || !c.rootPathParam(cs.g, a, visiting) {
+			return false
+		}
+	}
+	return true
 }
